@@ -18,6 +18,8 @@ def struct(sp):
 class C19(FlowCheck):
     ID = 'C19'
     PROPS = 'props/C19.v'
+    GEN = ['gen_flow', 'gen_mbf']
+    MODEL_IMPORTS = ['lib.MBFPrims', 'gen.Gen_mbf', 'gen.Gen_flow', 'model.Flow', 'model.FlowRef', 'model.FlowSingle']
     QUICK_CASES = 700
     THOROUGH_CASES = 7000
     TRUSTED = ['hand model model/Flow.v of interpreter.py (parse loop, jumps, FOR/NEXT, WHILE/WEND, GOSUB/RETURN, '
@@ -36,7 +38,16 @@ class C19(FlowCheck):
             'non-trivial = some output or an error message')
 
     def corpus(self):
+        mb = F.mbf_bytes
+
+        def single(a, b, s, susp=0):
+            return {'k': 'single', 'a': mb(G.f32(a)), 'b': mb(G.f32(b)), 's': mb(G.f32(s)), 'susp': susp}
         return [
+            # single-precision counters: accumulated rounding, stuck counters, overflow (D19c)
+            single(0, 1, .1), single(1, 2, 1e-8), single(16777215.0, 16777218.0, 1), single(1, 3, 1),
+            single(1.5, 3.2, .5), single(3, 1, 1), single(3, 1, -.5), single(1e38, 1.7e38, 1e38),
+            single(1e38, 1.7e38, 1e38, 1), single(-1e38, -1.7e38, -1e38), single(5, 1, 0), single(1, 5, 0),
+            single(1.7e38, 1, 1e38), single(0, 0, 0), single(1, 1, 1),
             # D17: zero step
             flat([L(10), ['F', 4, 5, 1, 0], ['P', V(4)], ['N', []], L(20), ['P', 7]]),
             flat([L(10), ['F', 4, 1, 5, 0], ['P', V(4)], ['N', []], L(20), ['P', 7]]),
@@ -86,8 +97,10 @@ class C19(FlowCheck):
         out = []
         for i in range(n):
             r = i % 20
-            if r < 10:
-                out.append(G.gen_struct(rng, allow_long=(r == 0 and i % 100 == 0)))
+            if r < 3:
+                out.append(G.gen_single(rng))
+            elif r < 10:
+                out.append(G.gen_struct(rng, allow_long=(r == 3 and i % 100 == 3)))
             elif r < 19:
                 out.append(G.gen_flat(rng))
             else:
